@@ -215,9 +215,10 @@ def case_strategy(draw, tier):
             info['col'], info['row'] = c['name'], i
             if c['kind'] == 'int64':
                 c['retype'] = info['to'] = 'float64'
+                tiny = 10.0 ** -(peff + 3)
                 c['patch'] = {'row': i, 'value': c['cells'][i] + (draw(
-                    st.sampled_from([0.75, 0.5, -0.75])) if peff >= 1
-                    else 2.75)}
+                    st.sampled_from([0.75, 0.5, -0.75, tiny, -tiny, tiny]))
+                    if peff >= 1 else draw(st.sampled_from([2.75, tiny])))}
             else:
                 c['retype'] = info['to'] = 'int_of_bool'
                 c['patch'] = {'row': i, 'value': draw(
@@ -449,8 +450,8 @@ def valid(case):
         if c.get('patch') is not None and c['retype'] == 'float64':
             # clear of the rounding grey zone, like every float difference
             dd = abs(c['patch']['value'] - c['cells'][c['patch']['row']])
-            if dd < 2.5 * 10.0 ** -(6 if o['precision'] is None
-                                    else o['precision']):
+            pp = 6 if o['precision'] is None else o['precision']
+            if not (dd >= 2.5 * 10.0 ** -pp or dd <= 10.0 ** -(pp + 1.5)):
                 return False
     return case.get('entry') in ENTRIES
 
@@ -702,6 +703,16 @@ def run(case, ctx):
                 act_path = os.path.join(d, 'actual.parquet')
                 act_df.to_parquet(act_path)
                 cmp_act = pd.read_parquet(act_path)
+                if case['ref']['n'] % 2 == 0:
+                    # both files carry one time stamp (cp -p, rsync -t, an
+                    # unpacked archive): equal size and time say nothing
+                    # about equal content
+                    for p_ in (ref_path, act_path):
+                        os.utime(p_, (1600000000, 1600000000))
+                    out.label('on-disk:same-mtime')
+                    if os.path.getsize(ref_path) == os.path.getsize(
+                            act_path):
+                        out.label('on-disk:same-mtime-and-size')
         except Exception as e:
             out.label('not-parquet-storable')
             return out
